@@ -51,4 +51,15 @@ move=> sn h u; split.
   have -> : s^-1 * s^-1 * (s * s) = 1 by field.
   by rewrite scale1r.
 Qed.
+
+(* left vectors built from right ones inherit their inner products up to the ratio of the singular values:
+   orthonormal V with A^T A v_j = s_j^2 v_j gives orthonormal U *)
+Lemma svd_left_inner (A : 'M[F]_(p, q)) (vi vj : 'cV[F]_q) (si sj : F) : si != 0 -> sj != 0 ->
+  A^T *m (A *m vj) = (sj * sj) *: vj ->
+  (si^-1 *: (A *m vi))^T *m (sj^-1 *: (A *m vj)) = (sj / si) *: (vi^T *m vj).
+Proof.
+move=> sin sjn h.
+rewrite -scalemxAr [(_ *: _)^T]linearZ /= -scalemxAl scalerA trmx_mul -mulmxA h -scalemxAr scalerA.
+by congr (_ *: _); field; rewrite sin sjn.
+Qed.
 End SVD.
